@@ -309,6 +309,53 @@ claim("C20",
   "additional names); inline-vs-reference byte identity of MODEL modules is not claimed for schemas (an inline copy gets its own parent-prefixed class).",
   "Coq proof (induction over chains / parameter lists, pigeonhole termination bound, reflection on regenerated field tables) + in-Coq differential correspondence + metamorphic inline<->reference oracle on generated trees and executed clients", "4/C20")
 
+claim("C08",
+  "Coq theorems about Graph.v, an executable machine for build_schemas (for ALL graphs; a graph = component nodes whose schema is flattened by the abstraction function into the "
+  "primitive instructions property_from_data performs on Schemas: need-reference with the roots handed to add_dependencies, allOf parent, record-dependant, mint model/enum class, intrinsic failure; "
+  "both retry loops with fuel |pending|+1 and errors from the last round only, `dependencies` surviving failed attempts, _propogate_removal as a depth-first work list, _process_model_errors, "
+  "duplicate-name and conflicting-enum checks, re-queued wrapper copies): loops_terminate (more fuel never changes the result of the create loop, the process loop and the removal cascade; both loops exit "
+  "in a round without progress); removal_closed (under wf_graph and the guard g_no_union_edge_to_failing every reference in the description of a surviving component - items, wrappers, union members, "
+  "properties, additionalProperties, allOf parents, incl. those of its inline model classes - points at a survivor); classes_closed (additionally under g_no_name_pressure every class a survivor mints is in "
+  "classes_by_name); removal_exact (a reference is deleted only if it is reachable through recorded dependency pairs from the roots of a model that failed; create/process never delete); create_lfp and "
+  "process_lfp (under g_plain/g_allof_direct/g_no_dup_error the loops compute least fixed points: created <-> derivable, reported-as-failed <-> no derivation, for every order); containment and containment_exact "
+  "(two documents that differ only in the description of component b: a component that does not reach b survives in one iff in the other; if b does not survive in D+b the survivors of D+b are exactly the survivors of D "
+  "minus the dependants* of b) under the boolean guard g_contain on both documents, with the non-vacuity example containment_nonvacuous. Refutation witnesses for the guards' complements, each a confirmed "
+  "defect reproduced on the implementation on every run: union_dependency_unrecorded_refuted (UnionProperty.build passes no roots), union_inline_reprocessed_refuted, name_pressure_refuted. "
+  "Correspondence: the model run by vm_compute on the abstracted graph == the real build_schemas (classes_by_reference keys, classes_by_name keys, ordered errors as (phase, unit, category) with removal "
+  "lists as sets, the whole dependencies relation, and wf_graph of the abstraction) on the exhaustive family of graphs with <= 2 nodes (5 object edge kinds + item/union member/wrapper, every target incl. self "
+  "and forward, every failure position), 3 nodes (quick: 2 object edge kinds exhaustive + 4000 sampled of the full family; thorough: full family exhaustive, 109k graphs), sampled 4-node graphs, random graphs "
+  "to 20 nodes (cycles, inline classes in items/unions/properties, enums, Reference components, dangling and remote references, class-name pressure, several failures) and the abstraction of the atlas and "
+  "of generated whole documents: ~32k cases quick, ~300k thorough. Oracle (stage C): valid documents D x bad piece b (array without items, dangling/remote $ref, invalid default, mixed-type enum at "
+  "property / list item / union member / additionalProperties / allOf member / parameter / body / response; incompatible allOf; optional path parameter; duplicate parameters; unparseable body; pairs in thorough): "
+  "every module of D outside the owner's dependants* is byte-identical in D+b, D+b imports module by module in a fresh interpreter and every surviving model executes from_dict/to_dict, every piece and every "
+  "lost/changed module is named by a diagnostic; failures are classified by the Coq guards on the abstracted graph of D+b (known finding only if the failing survivor reaches the missing class through an unrecorded edge).",
+  "Trusted: Coq kernel+vm_compute; harness/abstract_graph.py (document -> Graph.v term; it mirrors the branch order and inline-class naming of property_from_data with the real utils/Class.from_string, delegates leaves to the real "
+  "property_from_data on an empty Schemas, and reads from the code whether UnionProperty.build takes `roots`); it is checked by the correspondence on every run but is not proved. wf_graph is a fact about the abstraction "
+  "(evaluated on every case). Intrinsic validity of leaves, merge_properties conflicts other than primitive type clashes, python-name clashes and defaults on unions/wrappers are outside the model (flagged `imprecise`, not generated). "
+  "The containment theorems are about the survivor sets of the model (classes_by_reference keys); byte identity of the rendered modules is established by the oracle, not proved. Endpoint-level containment is oracle only. "
+  "On the unchanged tree g_no_union_edge_to_failing fails for references inside anyOf/oneOf (known finding union_dependency_unrecorded; a fix that keeps the pinned tests unchanged is in /verif/fixes/C08_union_roots.diff - after applying it "
+  "nothing in Graph.v changes: the abstraction detects the new `roots` parameter, emits recorded union-member edges, the first conjunct of the guard then holds by construction, and the known_findings entry is to be marked fixed).",
+  "Coq proof (invariants over fuel-indexed loops, closure of the removal work list, least fixed points, locality) + in-Coq differential correspondence on abstracted graphs + differential tree oracle D vs D+b", "4/Graph.v, 4/C08")
+
+claim("C07",
+  "Coq theorems: accounting (GraphThm, for ALL graphs, no guard): every component schema is in classes_by_reference at the end, or a diagnostic names it - as the unit that could not be parsed / processed, or in the "
+  "removal list of the error whose cascade deleted it; classes_closed (under wf_graph, g_no_name_pressure, g_no_union_edge_to_failing a surviving component has every class it mints in classes_by_name); "
+  "ops_accounted (CensusThm, fold invariant over ALL operation lists of the model of EndpointCollection.from_data: every operation is filed under each selected tag as an endpoint or as a warning keyed by METHOD path, and every "
+  "warning of a generated endpoint is handed on under the same key); endpoint_parts_accounted (every documented response key / request media type of a generated operation is a Response / Body of the endpoint or a warning "
+  "of it: the loops of _add_responses and of the body part of Endpoint.from_data lose nothing); no_silent_collapse (under g_module_names_distinct every endpoint of a tag has its own file holding it) and "
+  "status_distinct_no_alias; refutation witnesses module_overwrite_refuted (operationIds get-x / get_x computed with the proved Names.python_identifier: one file, first operation lost, no diagnostic), "
+  "status_alias_refuted (keys 200 / 0200), name_pressure_refuted (a component's class popped by the removal of an unrelated model: no module, no diagnostic). Correspondence per document: (1) for every component, "
+  "`class in res_cbn` and `named by a diagnostic` of the model on the abstracted graph == census of models/*.py (ast) and the diagnostics generate() returned; (2) Census.collections on the operation list, with the "
+  "per-piece outcomes taken from the real leaf parsers (add_parameters/sort_parameters, response_from_data, body_from_data per media type) == the real endpoint collections (endpoints and (METHOD path, kind) warnings per tag, in order). "
+  "Oracle: census of api/<tag>/*.py (method/url of _get_kwargs, status comparisons of _parse_response, Content-Type constants / body kwargs) and models/*.py joined with the document's operations and object/enum components and with "
+  "the diagnostics, on the atlas, generated valid documents and documents with seeded breakage (broken schemas with dependants at distance 1-3 over five edge kinds, Reference components, class-name twins, module-name twins, "
+  "operationId twins, broken/duplicate parameters, supported/unsupported/garbage media types, response keys default / 2XX / 0200 / 999): every item generated or diagnosed, no two items in one artefact without a diagnostic.",
+  "Trusted: Coq kernel+vm_compute; harness/abstract_graph.py; the ast-based census of generated sources; diagnostics are matched on the text `/components/schemas/<name>` and `WARNING parsing METHOD path within`; the leaf "
+  "parsers are oracles in correspondence (2) (the model is the control flow that files outcomes, not the parsing of a piece); body-schema property errors do not carry the media type in their text and are matched by count. "
+  "Reference components ({$ref} at top level of components.schemas) are diagnosed without naming the component (accepted: the error carries the reference as data). Known findings reproduced on every run: module_overwrite, "
+  "status_alias, module_collision_order, name_pressure_pop (enum_silent_merge is checked under C14).",
+  "Coq proof (fold invariants, loop invariants) + in-Coq differential correspondence (schema census and endpoint loop) + census oracle on generated trees", "4/C07")
+
 def main():
     checks = []
     for pid in ALL:
